@@ -41,6 +41,8 @@ def direct_key_methods(ci):
 
 
 def check(ctx):
+    order_comes_from_keys(ctx, "T4-order")
+    insert_at_index(ctx, "T9-insert")
     ctx.rule("T6-lodict", "every directly-keyed odict method is overridden in lodict and the override lowercases before delegating")
     ctx.rule("T2-keys-step", "odict mutators keep dict storage and _keys in step")
     ctx.rule("T9-copy", "copy/sift construct a new instance from a fresh list of items")
@@ -291,3 +293,60 @@ def no_mutation_of_iterated_keys(ctx):
                           "called with the dictionary itself the loop walks the list it is rearranging: keys are skipped and the order "
                           "changes (x.reorder(x) is documented as a no-op)")
     ctx.ok("T11-selfalias", "ioflo/aid/odicting.py", "%d loops over an argument that rearrange self._keys without a snapshot or `is self` exclusion" % n)
+
+
+_DICT_ORDER = ("items", "keys", "values", "__iter__", "iteritems", "iterkeys", "itervalues", "__reversed__", "popitem", "__repr__")
+
+
+def _dict_order_read(x):
+    """dict.<accessor>(self ..) / super().<accessor>() : a read of the builtin dict's own (insertion) order"""
+    if isinstance(x, ast.Call) and isinstance(x.func, ast.Attribute) and x.func.attr in _DICT_ORDER:
+        v = x.func.value
+        if isinstance(v, ast.Name) and v.id == "dict" and x.args and isinstance(x.args[0], ast.Name) and x.args[0].id == "self":
+            return True
+        if isinstance(v, ast.Call) and isinstance(v.func, ast.Name) and v.func.id == "super":
+            return True
+    if isinstance(x, ast.Call) and isinstance(x.func, ast.Name) and x.func.id in ("list", "iter", "tuple", "sorted", "reversed") and \
+            len(x.args) == 1 and isinstance(x.args[0], ast.Call) and _dict_order_read(x.args[0]):
+        return True
+    return False
+
+
+def order_comes_from_keys(ctx, rule):
+    """the order of an odict is the order of self._keys (insert(index, ..) and reorder() change it without touching the builtin
+    dict): nothing odict hands out may be read off the builtin dict's own iteration order"""
+    ctx.rule(rule, "no odict method reads dict.items/keys/values/__iter__(self) or super().<the same>: ordered views come from self._keys")
+    probe = ast.parse("a = list(dict.items(self))\nb = dict.__getitem__(self, k)\nc = super(odict, self).keys()")
+    if sum(1 for x in ast.walk(probe) if _dict_order_read(x)) != 3:     # list(..) and its inner call both match
+        raise AnchorError("%s matcher no longer recognises its positive examples" % rule)
+    O = ctx.cls("aid.odicting", "odict")
+    k = 0
+    for mn, f in sorted(O.methods.items()):
+        k += 1
+        ctx.use(f)
+        for x in ast.walk(f):
+            if _dict_order_read(x) and not (isinstance(x.func, ast.Name)):
+                ctx.bad(rule, x, "odict.%s: %s" % (mn, src(x)),
+                        "the builtin dict remembers insertion order only: after insert(0, k, v) or reorder() it lists the keys in a "
+                        "different order than keys()/iteration do, so items(), repr and the pickled state disagree with the odict")
+    ctx.floor(rule + ":methods", k, 25)
+
+
+def insert_at_index(ctx, rule):
+    """odict.insert(index, key, val) puts a new key at exactly that position (index 0 = front): RemoteStack re-keys by
+    `del idx[old]; idx.insert(index, new, remote)` and relies on it"""
+    from ..rules import path_condition, formula_implies_f, formula_of
+    ctx.rule(rule, "odict.insert: self._keys.insert(index, key) with the caller's index, on every path on which the key is new")
+    f = ctx.cls("aid.odicting", "odict").own_method("insert")
+    V = FuncView(ctx, f)
+    ins = [(n, c) for n, c in V.calls("self._keys.insert")]
+    ok = len(ins) == 1
+    if ok:
+        n, c = ins[0]
+        ok = len(c.args) == 2 and src(V.sym(c.args[0], n)) == f.args.args[1].arg and src(V.sym(c.args[1], n)) == f.args.args[2].arg
+        kname = f.args.args[2].arg
+        ok = ok and formula_implies_f(formula_of("%s not in self" % kname), path_condition(V, n))
+        ok = ok and not V.calls(("self._keys.append", "self._keys.extend"))
+    ctx.check(ok, rule, f, "odict.insert places the key at the given index",
+              "an insert that appends for some indexes (a falsy 0, say) moves a re-keyed entry to the end: the position of a renamed "
+              "remote is not kept and the three indexes of a RemoteStack list their remotes in different orders")
